@@ -1,7 +1,8 @@
 (* C14 - specification, written from the property text: for every validator its input domain, its
    documented predicate and its documented conversion; for convert_value the documented result.
-   Nothing here refers to Gen/Validators.v (the regenerated shapes) or to the model's functions
-   for the validators; shared are only the value universe, the CPython primitives of
+   Nothing here refers to the shapes regenerated from the source (Gen/Validators.v, `shapes`) or to the
+   model's functions for the validators; shared are only the value universe, the validator syntax, the
+   string helpers of convert_value's list/dict branch, the CPython primitives of
    Model/ValidatorsBase.v (strip, str, int, len, iteration, ==) and the stdlib oracles.
 
    `spec w v` is the executable oracle the harness evaluates next to the model:
@@ -107,10 +108,47 @@ Definition member_of (members : list value) (v : value) : option value :=
   | _ => option_map (fun i => VOpq K_ENUM [i]) (find_index (py_eq v) members 0)
   end.
 
+(* ---------- children and items (the verdict of a child is a parameter) ------------------------------ *)
+Section SpecLoops.
+  Variable A : Type.
+  Variable child : A -> value -> verdict.
+  (* Composite: every child accepts the same value; the value itself is returned *)
+  Fixpoint all_accept (cs : list A) (v : value) : verdict :=
+    match cs with
+    | [] => SAccept v
+    | c :: cs' => match child c v with SAccept _ => all_accept cs' v | SReject => SReject | SOut => SOut end
+    end.
+  (* ForEach, one item: it passes through the children in order, each one receiving what the previous returned *)
+  Fixpoint pipe (cs : list A) (it : value) : verdict :=
+    match cs with
+    | [] => SAccept it
+    | c :: cs' => match child c it with SAccept r => pipe cs' r | SReject => SReject | SOut => SOut end
+    end.
+End SpecLoops.
+Arguments all_accept {A} child cs v.
+Arguments pipe {A} child cs it.
+
+(* ForEach, all items in order: the list of the converted items *)
+Fixpoint each_accept (one : value -> verdict) (items : list value) : verdict :=
+  match items with
+  | [] => SAccept (VList [])
+  | it :: items' =>
+      match one it with
+      | SOut => SOut
+      | SReject => SReject
+      | SAccept r =>
+          match each_accept one items' with
+          | SAccept (VList rs) => SAccept (VList (r :: rs))
+          | SAccept _ => SOut          (* unreachable *)
+          | other => other
+          end
+      end
+  end.
+
 Section Spec.
   Variable O : oracles.
 
-  (* the integer a value denotes: an int/bool, a float without fractional part, a string int() reads,
+  (* the integer a value denotes: an int/bool, a float without fractional part, a string (or bytes) int() reads,
      a member of the IntEnum itself *)
   Definition int_denoted (members : list value) (v : value) : option Z :=
     match v with
@@ -118,6 +156,7 @@ Section Spec.
     | VInt z => Some z
     | VFloat f => if float_is_integral f then match int_of_float f with Ok z => Some z | Raise _ => None end else None
     | VStr s => match py_int_of_str O s with Ok z => Some z | Raise _ => None end
+    | VBytes s => match o_int_of_bytes O s with Ok z => Some z | Raise _ => None end
     | VOpq k [i] => if (k =? K_ENUM) && (0 <=? i)
                     then match nth_error members (Z.to_nat i) with Some (VInt z) => Some z | _ => None end
                     else None
@@ -136,8 +175,8 @@ Section Spec.
 
   Fixpoint spec (w : validator) (v : value) {struct w} : verdict :=
     match w with
-    | WMin b incl => if is_number v then (if sat_min b incl v then SAccept v else SReject) else SOut
-    | WMax b incl => if is_number v then (if sat_max b incl v then SAccept v else SReject) else SOut
+    | WMin b incl => if is_number v && is_number b then (if sat_min b incl v then SAccept v else SReject) else SOut
+    | WMax b incl => if is_number v && is_number b then (if sat_max b incl v then SAccept v else SReject) else SOut
     | WMinLen n => match py_len v with Some l => if n <=? l then SAccept v else SReject | None => SReject end
     | WMaxLen n => match py_len v with Some l => if l <=? n then SAccept v else SReject | None => SReject end
     | WNotEmpty strip =>
@@ -176,43 +215,11 @@ Section Spec.
         | Some f => match o_epoch_plus O f with Ok d => SAccept d | Raise _ => SReject end
         | None => SReject
         end
-    | WComposite cs =>
-        (fix all (cs : list validator) : verdict :=
-           match cs with
-           | [] => SAccept v
-           | c :: cs' => match spec c v with SAccept _ => all cs' | SReject => SReject | SOut => SOut end
-           end) cs
+    | WComposite cs => all_accept spec cs v
     | WForEach cs =>
         match iter_items v with
         | None => SReject
-        | Some items =>
-            let chain :=
-              (fix chain (cs : list validator) (it : value) : verdict :=
-                 match cs with
-                 | [] => SAccept it
-                 | c :: cs' => match spec c it with SAccept r => chain cs' r | SReject => SReject | SOut => SOut end
-                 end) cs in
-            match
-              (fix each (items : list value) : option (option (list value)) :=
-                 match items with
-                 | [] => Some (Some [])
-                 | it :: items' =>
-                     match chain it with
-                     | SOut => None
-                     | SReject => Some None
-                     | SAccept r =>
-                         match each items' with
-                         | None => None
-                         | Some None => Some None
-                         | Some (Some rs) => Some (Some (r :: rs))
-                         end
-                     end
-                 end) items
-            with
-            | None => SOut
-            | Some None => SReject
-            | Some (Some rs) => SAccept (VList rs)
-            end
+        | Some items => each_accept (pipe spec cs) items
         end
     end.
 
@@ -240,15 +247,22 @@ Section Spec.
   Definition has_type (v : value) (t : ttype) : bool := isinstance_t v t.
 
   (* ---------- known gaps (open findings): the exact regions the _partial theorems exclude -------- *)
-  (* 1 NaN value or NaN bound under Min/Max   2 non-integral float under IsEnum(IntEnum)
-     3 infinite float under IsEnum(IntEnum)   4 int beyond the float range under DateTimeUnixTimestamp *)
+  (* 1 NaN value or NaN bound under Min/Max
+     2 float with a fractional part under IsEnum(IntEnum) whose truncation is the value of a member
+     3 infinite float under IsEnum(IntEnum)
+     4 int beyond the float range under DateTimeUnixTimestamp *)
   Definition gap_here (w : validator) (v : value) : list Z :=
     match w with
-    | WMin b _ | WMax b _ => if is_number v && (is_nan v || is_nan b) then [1] else []
-    | WIsEnum _ true _ _ =>
+    | WMin b _ | WMax b _ => if is_number v && is_number b && (is_nan v || is_nan b) then [1] else []
+    | WIsEnum ms true _ _ =>
         match v with
         | VFloat (S754_infinity _) => [3]
-        | VFloat (S754_finite s m e) => if float_is_integral (S754_finite s m e) then [] else [2]
+        | VFloat (S754_finite s m e) =>
+            if float_is_integral (S754_finite s m e) then []
+            else match int_of_float (S754_finite s m e) with
+                 | Ok z => match member_of ms (VInt z) with Some _ => [2] | None => [] end
+                 | Raise _ => []
+                 end
         | _ => []
         end
     | WUnix => match v with
@@ -258,26 +272,31 @@ Section Spec.
     | _ => []
     end.
 
-  (* gaps met while the documented evaluation walks children and items (in evaluation order) *)
+  (* gaps met while the documented evaluation walks children and items (in evaluation order, up to
+     the first child / item that is not accepted) *)
+  Section GapLoops.
+    Variable g : validator -> value -> list Z.
+    Fixpoint gaps_all (cs : list validator) (v : value) : list Z :=
+      match cs with
+      | [] => []
+      | c :: cs' => g c v ++ match spec c v with SAccept _ => gaps_all cs' v | _ => [] end
+      end.
+    Fixpoint gaps_pipe (cs : list validator) (it : value) : list Z :=
+      match cs with
+      | [] => []
+      | c :: cs' => g c it ++ match spec c it with SAccept r => gaps_pipe cs' r | _ => [] end
+      end.
+  End GapLoops.
+  Fixpoint gaps_items (gp : value -> list Z) (one : value -> verdict) (items : list value) : list Z :=
+    match items with
+    | [] => []
+    | it :: items' => gp it ++ match one it with SAccept _ => gaps_items gp one items' | _ => [] end
+    end.
+
   Fixpoint gaps (w : validator) (v : value) {struct w} : list Z :=
     match w with
-    | WComposite cs =>
-        (fix all (cs : list validator) : list Z :=
-           match cs with
-           | [] => []
-           | c :: cs' => gaps c v ++ match spec c v with SAccept _ => all cs' | _ => [] end
-           end) cs
-    | WForEach cs =>
-        match iter_items v with
-        | None => []
-        | Some items =>
-            flat_map
-              ((fix chain (cs : list validator) (it : value) : list Z :=
-                  match cs with
-                  | [] => []
-                  | c :: cs' => gaps c it ++ match spec c it with SAccept r => chain cs' r | _ => [] end
-                  end) cs) items
-        end
+    | WComposite cs => gaps_all gaps cs v
+    | WForEach cs => match iter_items v with None => [] | Some items => gaps_items (gaps_pipe gaps cs) (pipe spec cs) items end
     | _ => gap_here w v
     end.
 End Spec.
